@@ -20,6 +20,7 @@ type hdrDef struct {
 }
 
 type hdrObj struct {
+	ctx          *Ctx
 	Fn           *ssa.Function
 	Root         ssa.Value // *ssa.Alloc or *ssa.Extract (result of tar.FileInfoHeader)
 	Kind         string    // "tar" | "rpm"
@@ -31,6 +32,75 @@ type hdrObj struct {
 	// result; fields the caller does not set keep the factory's definitions
 	Inner *hdrObj
 	pctx  *provCtx
+	// calls in Fn that hand the header to a module function which completes it
+	// (stores fields through that parameter and passes it on to nobody): the
+	// stores count as made at the call
+	finishers []*ssa.Call
+	viaCall   map[*ssa.Store]*ssa.Call
+	vctx      map[*ssa.Call]*provCtx
+}
+
+// finisherParam: the parameter of the call's callee the header is bound to, if
+// the callee only completes the header.
+func (h *hdrObj) finisherParam(c *Ctx, call *ssa.Call) *ssa.Parameter {
+	g := call.Call.StaticCallee()
+	if g == nil || len(g.Blocks) == 0 || c == nil || !c.isModuleFunc(g) {
+		return nil
+	}
+	for i, a := range call.Call.Args {
+		if a != h.Root || i >= len(g.Params) {
+			continue
+		}
+		p := g.Params[i]
+		if p.Referrers() == nil {
+			return nil
+		}
+		stores := false
+		for _, ref := range *p.Referrers() {
+			switch x := ref.(type) {
+			case *ssa.FieldAddr:
+				for _, r2 := range *x.Referrers() {
+					if st, ok := r2.(*ssa.Store); ok && st.Addr == ssa.Value(x) {
+						stores = true
+					}
+				}
+			case *ssa.DebugRef:
+			default:
+				return nil // handed on, returned, stored: not a mere finisher
+			}
+		}
+		if stores {
+			return p
+		}
+	}
+	return nil
+}
+
+// helperStores: stores to root.<field> made by the finishers.
+func (h *hdrObj) helperStores(field string) []*ssa.Store {
+	var out []*ssa.Store
+	for _, call := range h.finishers {
+		p := h.finisherParam(h.ctx, call)
+		if p == nil {
+			continue
+		}
+		for _, ref := range *p.Referrers() {
+			fa, ok := ref.(*ssa.FieldAddr)
+			if !ok || fieldName(fa.X.Type(), fa.Field) != field {
+				continue
+			}
+			for _, r2 := range *fa.Referrers() {
+				if st, ok := r2.(*ssa.Store); ok && st.Addr == ssa.Value(fa) {
+					if h.viaCall == nil {
+						h.viaCall = map[*ssa.Store]*ssa.Call{}
+					}
+					h.viaCall[st] = call
+					out = append(out, st)
+				}
+			}
+		}
+	}
+	return out
 }
 
 // provOf: the provenance of what a definition stores; for a definition inside
@@ -38,6 +108,15 @@ type hdrObj struct {
 // factory's parameters stand for this call's arguments, not for the union over
 // all callers).
 func (h *hdrObj) provOf(pa *provAnalysis, st *ssa.Store) provSet {
+	if call := h.viaCall[st]; call != nil {
+		if h.vctx == nil {
+			h.vctx = map[*ssa.Call]*provCtx{}
+		}
+		if h.vctx[call] == nil {
+			h.vctx[call] = &provCtx{call: call.Common(), fn: call.Call.StaticCallee(), depth: 1}
+		}
+		return pa.of(st.Val, h.vctx[call])
+	}
 	if h.Inner != nil && st.Parent() == h.Inner.Fn {
 		if call, ok := h.Create.(*ssa.Call); ok {
 			if h.pctx == nil {
@@ -220,6 +299,16 @@ func directHeaderObjects(c *Ctx, fns []*ssa.Function) []*hdrObj {
 // valueOf: the value a definition stores, with a factory's parameter replaced
 // by the argument of the call that created this header.
 func (h *hdrObj) valueOf(st *ssa.Store) ssa.Value {
+	if call := h.viaCall[st]; call != nil {
+		if prm, ok := st.Val.(*ssa.Parameter); ok {
+			for i, p := range call.Call.StaticCallee().Params {
+				if p == prm && i < len(call.Call.Args) {
+					return call.Call.Args[i]
+				}
+			}
+		}
+		return st.Val
+	}
 	if h.Inner == nil || st.Parent() != h.Inner.Fn {
 		return st.Val
 	}
@@ -250,6 +339,7 @@ func (h *hdrObj) innerReturns() []ssa.Instruction {
 // aliases of the header root inside its function (phi, loads of a cell it was
 // stored into are not needed: headers are used directly).
 func (h *hdrObj) findUses(c *Ctx) {
+	h.ctx = c
 	refs := h.Root.Referrers()
 	if refs == nil {
 		return
@@ -258,6 +348,10 @@ func (h *hdrObj) findUses(c *Ctx) {
 		switch x := ref.(type) {
 		case *ssa.Call:
 			// passed to WriteHeader or to a module function
+			if h.finisherParam(c, x) != nil {
+				h.finishers = append(h.finishers, x)
+				continue
+			}
 			for _, a := range x.Call.Args {
 				if a == h.Root {
 					h.Uses = append(h.Uses, x)
@@ -296,6 +390,7 @@ func (h *hdrObj) fieldStores(field string) []*ssa.Store {
 	if h.Inner != nil {
 		out = append(out, h.Inner.fieldStores(field)...)
 	}
+	out = append(out, h.helperStores(field)...)
 	refs := h.Root.Referrers()
 	if refs == nil {
 		return out
@@ -378,6 +473,29 @@ func (h *hdrObj) reachingLocal(field string, at ssa.Instruction) (defs []*ssa.St
 				for _, s2 := range byBlock[b] {
 					if s2 == st {
 						res = &state{defs: map[*ssa.Store]bool{st: true}, init: false, seen: true}
+					}
+				}
+			}
+			if call, ok := in.(*ssa.Call); ok {
+				// a finisher: its stores to the field happen here; they replace
+				// what came before when one of them lies on every path through
+				// the finisher
+				var hs []*ssa.Store
+				must := false
+				for _, st := range stores {
+					if h.viaCall[st] == call {
+						hs = append(hs, st)
+						if storeOnEveryPath(st) {
+							must = true
+						}
+					}
+				}
+				if len(hs) > 0 {
+					if must {
+						res = &state{defs: map[*ssa.Store]bool{}, init: false, seen: true}
+					}
+					for _, st := range hs {
+						res.defs[st] = true
 					}
 				}
 			}
@@ -641,4 +759,17 @@ func (h *hdrObj) typeflagClass(st *ssa.Store) string {
 		return "FILE"
 	}
 	return fmt.Sprintf("SPECIAL(%c)", rune(k.Int64()))
+}
+
+// storeOnEveryPath: the store's block dominates every return of its function.
+func storeOnEveryPath(st *ssa.Store) bool {
+	fn := st.Parent()
+	for _, b := range fn.Blocks {
+		if _, ok := b.Instrs[len(b.Instrs)-1].(*ssa.Return); ok {
+			if b != st.Block() && !st.Block().Dominates(b) {
+				return false
+			}
+		}
+	}
+	return true
 }
